@@ -75,6 +75,17 @@ theorem T08_mcx_total (ut : Bool) (cs : List Nat) (t : Nat) (fs : List Nat)
     ∃ gs, xDecompose ut (cs.length + 1) cs t fs = .ok gs :=
   xDecompose_total ut (cs.length + 1) cs t fs (Nat.lt_succ_self _) hn hfree
 
+/-- FULL statement including signs (needed for `use_toffolis=False`, where the congruent
+    Toffolis reverse the sign of |100⟩ and the signs must cancel across the doubled ladder):
+    the decomposition maps the signed basis state `(-1)^s |b⟩` to `(-1)^s |mcxSpec b⟩`.
+    NOT proved in general (`T08_mcx` above is its sign-free part, for both `use_toffolis`
+    values); it is checked on every run by executing `runS` on the REAL gate lists for every
+    basis state (m ≤ 7, see tools/props/C08.py) and by the exact unitary comparison. -/
+def T08_mcx_signed_statement : Prop :=
+  ∀ (ut : Bool) (fuel : Nat) (cs : List Nat) (t : Nat) (fs : List Nat) (gs : List CGate),
+    (cs ++ t :: fs).Nodup → xDecompose ut fuel cs t fs = .ok gs →
+    ∀ (s : Bool) (b : Lab), runS gs (s, b) = (s, mcxSpec cs t b)
+
 /-- non-vacuity: 4 controls, one borrowed qubit (the splitting branch), computed by the model. -/
 example : xDecompose true 5 [1, 2, 3, 4] 0 [5] = .ok
     [.toffoli 3 4 5, .toffoli 1 2 4, .toffoli 3 4 5, .toffoli 1 2 4, .toffoli 4 5 0,
